@@ -65,7 +65,8 @@ def _list_items(cp):
 
   # [Table-Form:NAME] sections are neither in parsed_sections nor orphans, list them too
   raw_cp = cp.raw_config_parser
-  table_form_sections = [s for s in raw_cp.sections() if s.startswith("Table-Form:")]
+  from ...config._config_parser import _TableFormSection
+  table_form_sections = [s for s in raw_cp.sections() if _TableFormSection.is_relevant_section(s)]
   items.extend(_parse_raw(cp, table_form_sections))
 
   # ... as is the [Variables] section
